@@ -138,9 +138,20 @@ def _drop_bang_implicit(evs):
     return out
 
 
-def compare_text(text, expected=None, levels=("parse", "compose", "load")):
-    """All differential comparisons on one text.  Returns (failures, evals, summary)."""
+def compare_text(text, expected=None, levels=("parse", "compose", "load"), make_input=None):
+    """All differential comparisons on one text.  Returns (failures, evals, summary).
+    make_input: optional factory returning a fresh delivery form of the text (e.g. a short-read stream) per call."""
     import yaml
+    _orig_text = text
+    if make_input is not None:
+        class _Fresh:
+            """stands for the text; every use builds a fresh stream"""
+        failures = []
+        return _compare(yaml, text, expected, levels, make_input)
+    return _compare(yaml, text, expected, levels, lambda: text)
+
+
+def _compare(yaml, text, expected, levels, inp):
     failures = []
     evals = 0
     summary = {}
@@ -154,8 +165,8 @@ def compare_text(text, expected=None, levels=("parse", "compose", "load")):
         levels = tuple(l for l in levels if l == "parse")
     if "parse" in levels:
         evals += 2
-        a = outcome(lambda: [ev_tuple(e) for e in yaml.parse(text, Loader=yaml.Loader)])
-        b = outcome(lambda: [ev_tuple(e) for e in yaml.parse(text, Loader=yaml.CLoader)])
+        a = outcome(lambda: [ev_tuple(e) for e in yaml.parse(inp(), Loader=yaml.Loader)])
+        b = outcome(lambda: [ev_tuple(e) for e in yaml.parse(inp(), Loader=yaml.CLoader)])
         summary["parse"] = (a[0], b[0])
         for side, r in (("py", a), ("c", b)):
             if r[0] == "error":
@@ -190,8 +201,8 @@ def compare_text(text, expected=None, levels=("parse", "compose", "load")):
             failures.append(Failure("valid-document-rejected-by-both:%s" % type(a[1]).__name__, exc_msg(a[1])))
     if "compose" in levels:
         evals += 2
-        a = outcome(lambda: list(yaml.compose_all(text, Loader=yaml.Loader)))
-        b = outcome(lambda: list(yaml.compose_all(text, Loader=yaml.CLoader)))
+        a = outcome(lambda: list(yaml.compose_all(inp(), Loader=yaml.Loader)))
+        b = outcome(lambda: list(yaml.compose_all(inp(), Loader=yaml.CLoader)))
         summary["compose"] = (a[0], b[0])
         if a[0] == "ok" and b[0] == "ok":
             if len(a[1]) != len(b[1]):
@@ -214,8 +225,8 @@ def compare_text(text, expected=None, levels=("parse", "compose", "load")):
     if "load" in levels:
         for name, pl, cl in PAIRS:
             evals += 2
-            a = outcome(lambda: list(yaml.load_all(text, Loader=getattr(yaml, pl))))
-            b = outcome(lambda: list(yaml.load_all(text, Loader=getattr(yaml, cl))))
+            a = outcome(lambda: list(yaml.load_all(inp(), Loader=getattr(yaml, pl))))
+            b = outcome(lambda: list(yaml.load_all(inp(), Loader=getattr(yaml, cl))))
             summary["load:" + name] = (a[0], b[0])
             if a[0] == "ok" and b[0] == "ok":
                 d = bisimilar(a[1], b[1], key_order=True)
@@ -333,12 +344,61 @@ def enum_malformed(shard, nshards, tier):
                 i += 1
 
 
+def eval_stream_delivery(case):
+    """The same comparison with the document delivered through a short-read text or byte stream (both back-ends read the
+    caller's stream through its read() method only)."""
+    from checks.c07 import ChunkedText, ChunkedBytes
+    stream, schedule, as_bytes = case
+    r = gd.render(stream)
+    text = r.text
+    if as_bytes:
+        data = text.encode("utf-8")
+        factory = lambda: ChunkedBytes(data, schedule)
+    else:
+        factory = lambda: ChunkedText(text, schedule)
+    failures, evals, summary = compare_text(text, r.events, make_input=factory)
+    feats = ["delivery:short-read-%s-stream" % ("byte" if as_bytes else "text")] + sorted(r.features)
+    return Eval(failures, feats, nontrivial=True, ident=(text, tuple(schedule), as_bytes), evals=evals,
+                sample={"text": text[:300], "schedule": schedule, "bytes": as_bytes})
+
+
+def stream_cases():
+    sched = st.lists(st.sampled_from([1, 2, 3, 7, 64, 1000, 4096]), min_size=1, max_size=6)
+    return st.tuples(gd.streams(3, 10), sched, st.booleans())
+
+
+LIMIT_SHAPES = ["%s: v\n", "- %s: v\n", "{%s: v}\n", "'%s': v\n", "\"%s\": v\n", "&a !!str %s: v\n", "k:\n  %s: v\n", "%s   : v\n", "? %s\n: v\n",
+                "- &%s x\n", "!%s x\n", "[%s, b]\n", "%s\n"]
+LIMIT_LENGTHS = [126, 127, 128, 129, 130, 255, 256, 257, 1019, 1020, 1021, 1022, 1023, 1024, 1025, 1026, 1027, 1030, 2048, 4095, 4096, 4097]
+
+
+def enum_limits(shard, nshards, tier):
+    """Length limits: names of every kind at and around the lengths where either back-end has a limit (128, 256, 1024, 4096)."""
+    i = 0
+    for shape in LIMIT_SHAPES:
+        for n in LIMIT_LENGTHS:
+            for fill in ("k", "\xe9"):
+                if i % nshards == shard:
+                    yield (shape, n, fill)
+                i += 1
+
+
+def eval_limits(case):
+    shape, n, fill = case
+    text = shape % (fill * n)
+    failures, evals, summary = compare_text(text)
+    return Eval(failures, ["limits:length-%d" % n if n in (128, 1024, 4096) else "limits:near"], nontrivial=True, ident=text, evals=evals,
+                sample={"shape": shape, "length": n, "outcomes": {k: list(v) for k, v in summary.items()}})
+
+
 def arms(tier):
     return [
         Arm("portable", eval_portable, lambda: gd.streams(3, 10), quick=9000, thorough=500000),
         Arm("dumped-values", eval_dumped_value, lambda: st.tuples(gv.blueprints(max_leaves=15), gv.dump_options()), quick=2500, thorough=150000),
         Arm("dumped-events", eval_dumped_events, lambda: st.tuples(ge.streams(2, 8), ge.emit_options()), quick=2500, thorough=150000),
         Arm("malformed", eval_malformed, enum=enum_malformed, exhaustive=True),
+        Arm("stream-delivery", eval_stream_delivery, stream_cases, quick=1500, thorough=60000),
+        Arm("limits", eval_limits, enum=enum_limits, exhaustive=True),
     ]
 
 
